@@ -59,6 +59,9 @@ func symbols() *sl.Symbols {
 		sl.Op{Name: "upd2(blank out)", Kind: "upd", Ids: []int{2}, Docs: []sl.Doc{{prop: "of the !!!"}}},
 		sl.Op{Name: "upd2(empty string)", Kind: "upd", Ids: []int{2}, Docs: []sl.Doc{{prop: ""}}},
 		sl.Op{Name: "upd4(whitespace only)", Kind: "upd", Ids: []int{4}, Docs: []sl.Doc{{prop: " \t  "}}},
+		// the same point twice in one batch, blanked both times (whichever arrives first: the outcome
+		// is a blank document, removed from the corpus exactly once)
+		sl.Op{Name: "upd2,2(blank out twice)", Kind: "upd", Ids: []int{2, 2}, Docs: []sl.Doc{{prop: "of the !!!"}, {prop: ""}}},
 		sl.Op{Name: "upd3(give text)", Kind: "upd", Ids: []int{3}, Docs: []sl.Doc{{prop: "zebra quick"}}},
 		sl.Op{Name: "upd1(_delete)", Kind: "upd", Ids: []int{1}, Docs: []sl.Doc{{prop: "_delete", "n": "_delete"}}},
 		sl.Op{Name: "upd7(add text)", Kind: "upd", Ids: []int{7, 1}, Docs: []sl.Doc{{prop: "quick fox"}, {prop: "brown brown"}}},
@@ -146,7 +149,7 @@ func master(cfg *harness.Config, rep *harness.Report) {
 	if !cfg.Quick() {
 		depth = 5
 	}
-	alpha := []string{"ins1(fox)", "ins2(quick dog)", "ins3(stopwords)", "ins4,5", "ins7(no text)", "upd1(rewrite)", "upd1(same words twice)", "upd2(blank out)", "upd2(empty string)", "upd4(whitespace only)", "upd3(give text)", "upd1(_delete)", "upd7(add text)", "del1", "del2,4"}
+	alpha := []string{"ins1(fox)", "ins2(quick dog)", "ins3(stopwords)", "ins4,5", "ins7(no text)", "upd1(rewrite)", "upd1(same words twice)", "upd2(blank out)", "upd2(empty string)", "upd4(whitespace only)", "upd2,2(blank out twice)", "upd3(give text)", "upd1(_delete)", "upd7(add text)", "del1", "del2,4"}
 	var specs []seqx.Spec
 	for _, be := range []struct {
 		name   string
